@@ -170,3 +170,17 @@ def absent_edges(g: Graph, match, amap: dict[str, str]) -> set:
             if l2 == lab:
                 out.add((t.id, b, l2))
     return out
+
+
+def reuse(chk: Check, fn, rule: str, text: str, drop: tuple[str, ...] = (), *args) -> None:
+    """Run another property's rule function and report its findings and
+    obligations under ``rule`` of the current property."""
+    before, nob = len(chk.findings), len(chk.obligations)
+    fn(chk, *args)
+    for f in chk.findings[before:]:
+        f.rule = rule
+    for o in chk.obligations[nob:]:
+        o["rule"] = f"{chk.prop}.{rule}"
+    for r in drop:
+        chk.rules.pop(r, None)
+    chk.rules[rule] = text
